@@ -3841,6 +3841,221 @@ Section EvalSteps.
   Qed.
 End EvalSteps.
 
+(* ==================================================================== 7b. Eval.eval is such a sequence *)
+(* [compile] is Model/Eval.v's [execute] instrumented with the L0 steps it performs; compile_ok: whenever it succeeds
+   it returns what execute returns, and folding the steps over the frame gives the same frame. *)
+From QF Require Model.Eval.
+
+Lemma ofold_app {A B} (g : B -> A -> outcome B) (a b : list A) x :
+  Filter.ofold g (a ++ b) x = do y <- Filter.ofold g a x; Filter.ofold g b y.
+Proof.
+  revert x. induction a as [|h a IH]; intro x; [reflexivity|].
+  cbn [app]. rewrite !ofold_cons. destruct (g x h) as [y| |]; cbn [obind]; [apply IH|reflexivity|reflexivity].
+Qed.
+
+Section Compile.
+  Variable ut : Ops.upper_table.
+  Variable cx : Eval.ctx.
+
+  Definition cres := (list l0step * Frame.frame * bytes)%type.
+
+  Definition c_const (f : Frame.frame) (v : Frame.cell) : outcome cres :=
+    if Frame.ferr f then Ok ([], f, [])
+    else do name <- Eval.temp_col_name f Eval.p_const;
+         let i := Ops.mkInstr (Ops.F0Const v) name [] [] in
+         do r <- Ops.apply ut f [i];
+         Ok ([L0Apply i], r, name).
+
+  Definition c_getfn (two : bool) (f : Frame.frame) (col op : bytes) : list l0step * Frame.frame * option Ops.afn :=
+    if Frame.ferr f then ([], f, None)
+    else match Frame.lookup_col f col with
+         | None => ([L0Err], Frame.with_err f, None)
+         | Some c => match Eval.get_func cx (Frame.col_ftype c) two op with
+                     | Some fn => ([], f, Some fn)
+                     | None => ([L0Err], Frame.with_err f, None)
+                     end
+         end.
+
+  Definition c_unary (f : Frame.frame) (op col : bytes) : outcome cres :=
+    let '(s0, f', fn) := c_getfn false f col op in
+    if Frame.ferr f' then Ok (s0, f', [])
+    else match fn with
+         | None => Panic
+         | Some g =>
+             do name <- Eval.temp_col_name f' Eval.p_unary;
+             let i := Ops.mkInstr g name col [] in
+             do r <- Ops.apply ut f' [i];
+             Ok (s0 ++ [L0Apply i], r, name)
+         end.
+
+  Definition c_colcol (f : Frame.frame) (op c1 c2 : bytes) : outcome cres :=
+    let '(s0, f', fn) := c_getfn true f c1 op in
+    if Frame.ferr f' then Ok (s0, f', [])
+    else match fn with
+         | None => Panic
+         | Some g =>
+             do name <- Eval.temp_col_name f' Eval.p_colcol;
+             let i := Ops.mkInstr g name c1 c2 in
+             do r <- Ops.apply ut f' [i];
+             Ok (s0 ++ [L0Apply i], r, name)
+         end.
+
+  Fixpoint compile (e : Eval.expr) (f : Frame.frame) {struct e} : outcome cres :=
+    match e with
+    | Eval.XCol n => Ok ([], f, n)
+    | Eval.XConst v => c_const f v
+    | Eval.XUnary op col => c_unary f op col
+    | Eval.XColConst op col v constFirst =>
+        if Frame.ferr f then Ok ([], f, [])
+        else
+          do rc <- c_const f v;
+          let '(s1, r, cname) := rc in
+          do rr <- (if constFirst then c_colcol r op cname col else c_colcol r op col cname);
+          let '(s2, r', name) := rr in
+          Ok (s1 ++ s2 ++ [L0Drop [cname]], Ops.drop r' [cname], name)
+    | Eval.XColCol op c1 c2 => c_colcol f op c1 c2
+    | Eval.XExpr1 op e1 =>
+        do r1 <- compile e1 f;
+        let '(s1, r, tmp) := r1 in
+        do rr <- c_unary r op tmp;
+        let '(s2, r', name) := rr in
+        Ok (if Frame.contains f tmp then (s1 ++ s2, r', name) else (s1 ++ s2 ++ [L0Drop [tmp]], Ops.drop r' [tmp], name))
+    | Eval.XExpr2 op l r =>
+        do rl <- compile l f;
+        let '(sl, fl, lname) := rl in
+        do rr <- compile r fl;
+        let '(sr, fr, rname) := rr in
+        do rc <- c_colcol fr op lname rname;
+        let '(sc, f', name) := rc in
+        Ok (sl ++ sr ++ sc ++ [L0Drop (filter (fun n => negb (Frame.contains f n)) [lname; rname])],
+            Eval.drop_unless_original f f' [lname; rname], name)
+    | Eval.XError => if Frame.ferr f then Ok ([], f, []) else Ok ([L0Err], Frame.with_err f, [])
+    end.
+
+  Notation fold := (Filter.ofold (l0_run_step ut)).
+
+  Lemma fold_one s f : fold [s] f = l0_run_step ut f s.
+  Proof. unfold Filter.ofold. cbn [fold_left obind]. destruct (l0_run_step ut f s); reflexivity. Qed.
+
+  Lemma c_const_ok f v s r name :
+    c_const f v = Ok (s, r, name) -> Eval.exec_const ut f v = Ok (r, name) /\ fold s f = Ok r.
+  Proof.
+    unfold c_const, Eval.exec_const. destruct (Frame.ferr f); [intro H; inversion H; subst; auto|].
+    destruct (Eval.temp_col_name f Eval.p_const) as [nm| |]; cbn [obind]; try discriminate.
+    destruct (Ops.apply ut f [Ops.mkInstr (Ops.F0Const v) nm [] []]) as [r0| |] eqn:E; cbn [obind]; try discriminate.
+    intro H. inversion H; subst. split; [reflexivity|]. rewrite fold_one. exact E.
+  Qed.
+
+  Lemma c_getfn_ok two f col op :
+    let '(s0, f', fn) := c_getfn two f col op in
+    Eval.get_fn cx two f col op = (f', fn) /\ fold s0 f = Ok f'.
+  Proof.
+    unfold c_getfn, Eval.get_fn. destruct (Frame.ferr f) eqn:Ef; [auto|].
+    destruct (Frame.lookup_col f col) as [c|].
+    - destruct (Eval.get_func cx (Frame.col_ftype c) two op); [auto|]. split; [reflexivity|].
+      rewrite fold_one. cbn [l0_run_step]. rewrite Ef. reflexivity.
+    - split; [reflexivity|]. rewrite fold_one. cbn [l0_run_step]. rewrite Ef. reflexivity.
+  Qed.
+
+  Lemma c_unary_ok f op col s r name :
+    c_unary f op col = Ok (s, r, name) -> Eval.exec_unary ut cx f op col = Ok (r, name) /\ fold s f = Ok r.
+  Proof.
+    unfold c_unary, Eval.exec_unary. pose proof (c_getfn_ok false f col op) as Hg.
+    destruct (c_getfn false f col op) as [[s0 f'] fn]. destruct Hg as [Eg Hf0]. rewrite Eg.
+    destruct (Frame.ferr f'); [intro H; inversion H; subst; auto|].
+    destruct fn as [g|]; [|discriminate].
+    destruct (Eval.temp_col_name f' Eval.p_unary) as [nm| |]; cbn [obind]; try discriminate.
+    destruct (Ops.apply ut f' [Ops.mkInstr g nm col []]) as [r0| |] eqn:E; cbn [obind]; try discriminate.
+    intro H. inversion H; subst. split; [reflexivity|]. rewrite ofold_app, Hf0. cbn [obind]. rewrite fold_one. exact E.
+  Qed.
+
+  Lemma c_colcol_ok f op c1 c2 s r name :
+    c_colcol f op c1 c2 = Ok (s, r, name) -> Eval.exec_colcol ut cx f op c1 c2 = Ok (r, name) /\ fold s f = Ok r.
+  Proof.
+    unfold c_colcol, Eval.exec_colcol. pose proof (c_getfn_ok true f c1 op) as Hg.
+    destruct (c_getfn true f c1 op) as [[s0 f'] fn]. destruct Hg as [Eg Hf0]. rewrite Eg.
+    destruct (Frame.ferr f'); [intro H; inversion H; subst; auto|].
+    destruct fn as [g|]; [|discriminate].
+    destruct (Eval.temp_col_name f' Eval.p_colcol) as [nm| |]; cbn [obind]; try discriminate.
+    destruct (Ops.apply ut f' [Ops.mkInstr g nm c1 c2]) as [r0| |] eqn:E; cbn [obind]; try discriminate.
+    intro H. inversion H; subst. split; [reflexivity|]. rewrite ofold_app, Hf0. cbn [obind]. rewrite fold_one. exact E.
+  Qed.
+
+  Lemma compile_ok e : forall f s r name,
+    compile e f = Ok (s, r, name) -> Eval.execute ut cx e f = Ok (r, name) /\ fold s f = Ok r.
+  Proof.
+    induction e as [n|v|op col|op col v cf|op c1 c2|op e1 IH1|op l IHl r0 IHr|]; intros f s r name; cbn [compile Eval.execute].
+    - intro H. inversion H; subst. auto.
+    - apply c_const_ok.
+    - apply c_unary_ok.
+    - destruct (Frame.ferr f); [intro H; inversion H; subst; auto|].
+      destruct (c_const f v) as [[[s1 r1] cname]| |] eqn:E1; cbn [obind]; try discriminate.
+      destruct (c_const_ok _ _ _ _ _ E1) as [X1 F1]. rewrite X1. cbn [obind].
+      destruct cf.
+      + destruct (c_colcol r1 op cname col) as [[[s2 r2] nm]| |] eqn:E2; cbn [obind]; try discriminate.
+        destruct (c_colcol_ok _ _ _ _ _ _ _ E2) as [X2 F2]. rewrite X2. cbn [obind].
+        intro H. inversion H; subst. split; [reflexivity|].
+        rewrite ofold_app, F1. cbn [obind]. rewrite ofold_app, F2. cbn [obind]. rewrite fold_one. reflexivity.
+      + destruct (c_colcol r1 op col cname) as [[[s2 r2] nm]| |] eqn:E2; cbn [obind]; try discriminate.
+        destruct (c_colcol_ok _ _ _ _ _ _ _ E2) as [X2 F2]. rewrite X2. cbn [obind].
+        intro H. inversion H; subst. split; [reflexivity|].
+        rewrite ofold_app, F1. cbn [obind]. rewrite ofold_app, F2. cbn [obind]. rewrite fold_one. reflexivity.
+    - apply c_colcol_ok.
+    - destruct (compile e1 f) as [[[s1 r1] tmp]| |] eqn:E1; cbn [obind]; try discriminate.
+      destruct (IH1 _ _ _ _ E1) as [X1 F1]. rewrite X1. cbn [obind].
+      destruct (c_unary r1 op tmp) as [[[s2 r2] nm]| |] eqn:E2; cbn [obind]; try discriminate.
+      destruct (c_unary_ok _ _ _ _ _ _ E2) as [X2 F2]. rewrite X2. cbn [obind].
+      destruct (Frame.contains f tmp); intro H; inversion H; subst; (split; [reflexivity|]).
+      + rewrite ofold_app, F1. cbn [obind]. exact F2.
+      + rewrite ofold_app, F1. cbn [obind]. rewrite ofold_app, F2. cbn [obind]. rewrite fold_one. reflexivity.
+    - destruct (compile l f) as [[[sl fl] lname]| |] eqn:El; cbn [obind]; try discriminate.
+      destruct (IHl _ _ _ _ El) as [Xl Fl]. rewrite Xl. cbn [obind].
+      destruct (compile r0 fl) as [[[sr fr] rname]| |] eqn:Er; cbn [obind]; try discriminate.
+      destruct (IHr _ _ _ _ Er) as [Xr Fr]. rewrite Xr. cbn [obind].
+      destruct (c_colcol fr op lname rname) as [[[sc f'] nm]| |] eqn:Ec; cbn [obind]; try discriminate.
+      destruct (c_colcol_ok _ _ _ _ _ _ _ Ec) as [Xc Fc]. rewrite Xc. cbn [obind].
+      intro H. inversion H; subst. split; [reflexivity|].
+      rewrite ofold_app, Fl. cbn [obind]. rewrite ofold_app, Fr. cbn [obind]. rewrite ofold_app, Fc. cbn [obind].
+      rewrite fold_one. reflexivity.
+    - destruct (Frame.ferr f) eqn:Ef; intro H; inversion H; subst; (split; [reflexivity|]); [reflexivity|].
+      rewrite fold_one. cbn [l0_run_step]. rewrite Ef. reflexivity.
+  Qed.
+
+  (* QFrame.Eval of an expression = the fold of its steps, then Copy and possibly Drop *)
+  Theorem eval_as_steps f dst e s r name :
+    compile e f = Ok (s, r, name) ->
+    Eval.eval ut cx f dst e =
+    l0_eval_steps ut f s dst name (negb (bytes_eqb name dst) && negb (Frame.contains f name)).
+  Proof.
+    intro H. destruct (compile_ok e f s r name H) as [X F].
+    unfold Eval.eval, l0_eval_steps. destruct (Frame.ferr f); [reflexivity|].
+    rewrite X, F. reflexivity.
+  Qed.
+End Compile.
+
+(* QFrame.Eval end to end: the heap program for the steps the expression executes refines Model/Eval.v's eval *)
+Section EvalRefine.
+  Variable env : fnid -> list val -> val.
+  Variable dec : decoder.
+  Variable ut : Ops.upper_table.
+  Variable cx : Eval.ctx.
+  Variable SL : store -> qframe -> Frame.frame -> instr -> Ops.instr -> Prop.
+  Hypothesis Hstep : step_ok env dec ut SL.
+
+  Theorem refines_eval t n st qf f e dst hs ls r name name_ok :
+    ref_ok dec st qf -> abs1 dec st qf = Some f -> store_fresh t n st ->
+    compile ut cx e f = Ok (ls, r, name) ->
+    name_ok = Ops.check_name dst ->
+    esteps_link env dec ut SL t n st qf f hs ls ->
+    exists res n' st',
+      run env t (op_eval hs name_ok dst name (negb (bytes_eqb name dst) && negb (Frame.contains f name)) qf) n st = (res, n', st') /\
+      step_post dec (Eval.eval ut cx f dst e) t st res n' st'.
+  Proof.
+    intros Hok Habs Hf Hc Hname Hl. rewrite (eval_as_steps ut cx f dst e ls r name Hc).
+    apply (refines_eval_steps env dec ut SL Hstep t n st qf f hs ls name_ok dst name _ Hok Habs Hf Hname Hl).
+  Qed.
+End EvalRefine.
+
 (* ==================================================================== non-vacuity *)
 From QF Require Import Proofs.ConcProofs.
 
@@ -4353,3 +4568,49 @@ Module EvalExamples.
     = Ok (Frame.mkFrame [(nA, dA); (nD, Frame.ICol [32; 12; 7; 22]%Z)] [0; 1; 3; 2] false).
   Proof. split; vm_compute; reflexivity. Qed.
 End EvalExamples.
+
+Module EvalExamples2.
+  Import HeapExamples RefineExamples ApplyExamples ChainExamples.
+  (* Eval("D", Expr("f", Expr("f", ColumnName("A")))) with f = x + 1 in the context *)
+  Definition opf : bytes := [102%N].
+  Definition tblAB : list (Frame.cell * Frame.cell) := tblA ++ tblB.
+  Definition cxf : Eval.ctx := [((Frame.TInt, false, opf), Ops.F1 Frame.TInt Frame.TInt tblAB)].
+  Definition ex : Eval.expr := (Eval.XExpr1 opf (Eval.XUnary opf nA)).
+  Definition tmp0 : bytes := (Eval.p_unary ++ Eval.temp_suffix ++ Eval.itoa 0).
+  Definition tmp1 : bytes := (Eval.p_unary ++ Eval.temp_suffix ++ Eval.itoa 1).
+  Definition nD : bytes := [68%N].
+  Definition b1 : instr := mkInstr (FnCall 1%N 0%N) tmp0 (Some nA) None true.
+  Definition b2 : instr := mkInstr (FnCall 1%N 0%N) tmp1 (Some tmp0) None true.
+  Definition hs : list estep := [EApply b1; EApply b2; EDrop [tmp0]].
+  Definition j1 : Ops.instr := Ops.mkInstr (Ops.F1 Frame.TInt Frame.TInt tblAB) tmp0 nA [].
+  Definition j2 : Ops.instr := Ops.mkInstr (Ops.F1 Frame.TInt Frame.TInt tblAB) tmp1 tmp0 [].
+  Definition ls : list l0step := [L0Apply j1; L0Apply j2; L0Drop [tmp0]].
+  Definition rD : Frame.frame := Frame.mkFrame [(nA, dA); (tmp1, Frame.ICol [32; 12; 7; 22]%Z)] [0; 1; 3; 2] false.
+
+  Example compile_example : compile [] cxf ex f0 = Ok (ls, rD, tmp1).
+  Proof. vm_compute. reflexivity. Qed.
+
+  Example esteps_link_example : esteps_link env0 dec_std [] (instr_link env0) 1 0 st0 qf0 f0 hs ls.
+  Proof.
+    apply EL_apply.
+    - intros _. apply (IL_call1 env0 st0 qf0 f0 b1 nA 1%N Frame.TInt Frame.TInt tblAB); try reflexivity; try discriminate.
+      intros c d Hc Hd. vm_compute in Hc, Hd. inversion Hc; inversion Hd; subst. split; [reflexivity|].
+      intros p Hin cell Hcell. simpl in Hin.
+      destruct Hin as [<-|[<-|[<-|[<-|[]]]]]; vm_compute in Hcell; inversion Hcell; subst; eexists; split; reflexivity.
+    - intros qf' n' st' f' Hrun Hl0 Habs. vm_compute in Hrun. inversion Hrun; subst qf' n' st'. clear Hrun.
+      vm_compute in Hl0. inversion Hl0; subst f'. clear Hl0 Habs.
+      apply EL_apply.
+      + intros _. apply (IL_call1 env0 _ _ _ b2 tmp0 1%N Frame.TInt Frame.TInt tblAB); try reflexivity; try discriminate.
+        intros c d Hc Hd. vm_compute in Hc, Hd. inversion Hc; inversion Hd; subst. split; [reflexivity|].
+        intros p Hin cell Hcell. simpl in Hin.
+        destruct Hin as [<-|[<-|[<-|[<-|[]]]]]; vm_compute in Hcell; inversion Hcell; subst; eexists; split; reflexivity.
+      + intros. apply EL_drop. intros. apply EL_nil.
+  Qed.
+
+  Example eval_example :
+    (let '(r, _, st') := run env0 1 (op_eval hs true nD tmp1 (negb (bytes_eqb tmp1 nD) && negb (Frame.contains f0 tmp1)) qf0) 0 st0 in
+     match r with Ok q => option_map Ok (abs1 dec_std st' q) | _ => None end)
+    = Some (Eval.eval [] cxf f0 nD ex) /\
+    Eval.eval [] cxf f0 nD ex = Ok (Frame.mkFrame [(nA, dA); (nD, Frame.ICol [32; 12; 7; 22]%Z)] [0; 1; 3; 2] false).
+  Proof. split; vm_compute; reflexivity. Qed.
+End EvalExamples2.
